@@ -163,7 +163,7 @@ class CopyPreserve(CopySuite):
             "non-trivial = distinct case with >= 2 source entries")
 
     def gen(self, rng, tier):
-        n = {"quick": 300, "thorough": 10000, "search": 150}[tier]
+        n = {"quick": 900, "thorough": 10000, "search": 150}[tier]
         ops = []
         for _ in range(n):
             tree = gen.disk_tree(rng, rng.choice([6, 15, 35]), 4, types=ALLT, file_sizes=(0, 1, 100, 40000), xattrs=True)
@@ -203,6 +203,78 @@ class CopyPreserve(CopySuite):
     }
 
 
+
+def collide_family(rng, escape=False):
+    """several wildcard matches (directories below one parent) whose CONTENTS land on the same destination names, with hard-link groups that
+    span the matches: a path one match created (and that may be the recorded link source of a group) is replaced by a later match"""
+    names = [b"a", b"d", b"f", b"g"] if escape else [b"a", b"b", b"f", b"g", b"d"]
+    D = lambda p: {"p": hx(p), "t": "dir", "uid": 0, "gid": 0, "mt": gen.MTIMES[0], "mode": 0o755}
+    F = lambda p: {"p": hx(p), "t": "file", "size": rng.choice([0, 3, 100]), "uid": rng.choice([0, 1000]), "gid": 0, "mt": rng.choice(gen.MTIMES[:3]), "mode": 0o644}
+    tree = [D(b"w")]
+    regs = []
+    for m in sorted(rng.sample([b"u", b"x", b"y", b"z"], rng.randint(2, 4))):
+        md = b"w/" + m
+        tree.append(D(md))
+        for n in sorted(rng.sample(names, rng.randint(1, 3))):
+            p = md + b"/" + n
+            t = rng.choice(["file", "file", "dir", "symlink", "hardlink", "hardlink"])
+            if t == "hardlink" and not regs:
+                t = "file"
+            if t == "file":
+                tree.append(F(p))
+                regs.append(p)
+            elif t == "hardlink":
+                tree.append({"p": hx(p), "t": "hardlink", "ln": hx(rng.choice(regs))})
+            elif t == "symlink":
+                ln = rng.choice([b"/outside", b"/outside", b"/outside/d", b"/srcout", b"../outside", b"../outside/d", rng.choice(SYM_TARGETS)]) if escape \
+                    else rng.choice([b"f", b"../x", b".", b"g"])
+                tree.append({"p": hx(p), "t": "symlink", "ln": hx(ln), "uid": 0, "gid": 0, "mt": gen.MTIMES[0], "mode": 0o777})
+            else:
+                tree.append(D(p))
+                for c in sorted(rng.sample([b"f", b"g", b"secret"] if escape else names, rng.randint(1, 2))):
+                    if regs and rng.random() < 0.5:
+                        tree.append({"p": hx(p + b"/" + c), "t": "hardlink", "ln": hx(rng.choice(regs))})
+                    else:
+                        tree.append(F(p + b"/" + c))
+                        regs.append(p + b"/" + c)
+    if rng.random() < 0.5:
+        # skeleton: the first match records a link source (possibly inside a directory), a later match replaces that path (or the
+        # directory above it) by something else, a still later match holds another member of the group
+        have = {e["p"] for e in tree}
+        def put(e):
+            if e["p"] not in have:
+                have.add(e["p"])
+                tree.append(e)
+        tgt, child = rng.choice([(b"/outside", b"f"), (b"/outside/d", b"g"), (b"../outside", b"f"), (b"/srcout", b"secret")]) if escape \
+            else (rng.choice([b"f", b".", b"../x"]), rng.choice([b"f", b"g"]))
+        dn = rng.choice([b"a", b"d"])
+        deep = escape or rng.random() < 0.5
+        for m in (b"u", b"x", b"z"):
+            put(D(b"w/" + m))
+        tree[:] = [e for e in tree if not (e["p"] == hx(b"w/u/" + dn) or e["p"].startswith(hx(b"w/u/" + dn + b"/")))]
+        have = {e["p"] for e in tree}
+        if deep:
+            put(D(b"w/u/" + dn))
+            lead = b"w/u/" + dn + b"/" + child
+        else:
+            lead = b"w/u/" + dn
+        put(F(lead))
+        tree[:] = [e for e in tree if e["p"] != hx(b"w/x/" + dn) and not e["p"].startswith(hx(b"w/x/" + dn + b"/"))]
+        have = {e["p"] for e in tree}
+        if escape or rng.random() < 0.4:
+            put({"p": hx(b"w/x/" + dn), "t": "symlink", "ln": hx(tgt), "uid": 0, "gid": 0, "mt": gen.MTIMES[0], "mode": 0o777})
+        else:
+            put(F(b"w/x/" + dn))
+        put({"p": hx(b"w/z/" + rng.choice([b"h", b"b", b"g"])), "t": "hardlink", "ln": hx(lead)})
+        files = {e["p"] for e in tree if e["t"] == "file"}
+        tree[:] = [e for e in tree if e["t"] != "hardlink" or e["ln"] in files]
+        tree.sort(key=lambda e: gen.pathkey(bytes.fromhex(e["p"])))
+    a = {"src": hx(b"/w/*"), "dst": hx(rng.choice([b"/out", b"/out/", b"/"])), "cdc": True, "wild": True}
+    if rng.random() < (0.85 if escape else 0.6):
+        a["replace"] = True
+    dst = [] if rng.random() < 0.6 else [D(b"out")]
+    return tree, dst, a
+
 class CopyOverlay(CopySuite):
     """C15"""
     name = "copyoverlay"
@@ -212,7 +284,7 @@ class CopyOverlay(CopySuite):
             "non-trivial = populated destination, distinct")
 
     def gen(self, rng, tier):
-        n = {"quick": 300, "thorough": 10000, "search": 150}[tier]
+        n = {"quick": 900, "thorough": 10000, "search": 150}[tier]
         ops = []
         for _ in range(n):
             tree = gen.disk_tree(rng, rng.choice([5, 12, 25]), 3, types=("dir", "file", "symlink", "fifo", "hardlink"), file_sizes=(0, 3, 100), xattrs=False)
@@ -224,6 +296,17 @@ class CopyOverlay(CopySuite):
             else:
                 dst = gen.disk_tree(rng, 8, 3, types=("dir", "file", "symlink"), xattrs=False, file_sizes=(0, 3))
             dst = [e for e in dst if e["t"] != "hardlink"]
+            if rng.random() < 0.08:
+                ops.append(self.mk(*collide_family(rng)))
+                continue
+            if rng.random() < 0.3:
+                # a destination file that differs from the source file of the same name in its BYTES only (same size, same times)
+                sf = {e["p"]: e for e in tree if e["t"] == "file" and 0 < e.get("size", 0) <= 4096}
+                for e in dst:
+                    if e["t"] == "file" and e["p"] in sf and rng.random() < 0.6:
+                        e["size"] = sf[e["p"]]["size"]
+                        e["mt"] = sf[e["p"]]["mt"]
+                        e["data"] = bytes((5 + 13 * i) % 251 for i in range(e["size"])).hex()
             a = {"src": hx(src)}
             a["dst"] = hx(rng.choice([b"/", b"/", b"/" + sub if sub else b"/", b"/" + sub + b"/" if sub else b"/new/", b"/new/x", b"/new"]))
             if rng.random() < 0.5:
@@ -304,7 +387,7 @@ class CopyFilter(CopySuite):
 
     def gen(self, rng, tier):
         from . import filt
-        n = {"quick": 400, "thorough": 15000, "search": 200}[tier]
+        n = {"quick": 1200, "thorough": 15000, "search": 200}[tier]
         ops = []
         while len(ops) < n:
             links = rng.random() < 0.3
@@ -319,6 +402,22 @@ class CopyFilter(CopySuite):
             if hl and rng.random() < 0.5:
                 # the filter rejects the first name of a hard-link group and selects a later one
                 a["exclude"] = [rng.choice(hl)["ln"]]
+                dst = [] if rng.random() < 0.7 else [e for e in gen.mutate_disk_tree(rng, tree, 2) if e["t"] != "hardlink"]
+                ops.append(self.mk(tree, dst, a))
+                continue
+            deep = [q for q in paths if q.count(b"/") >= 1]
+            if deep and rng.random() < 0.15:
+                # include AND exclude lists together: an include that selects entries below directories it does not select itself
+                # (created on demand), an exclude list with an exception naming one of those directories
+                cs = rng.choice(deep).split(b"/")
+                esc = lambda c: b"".join(b"\\" + bytes([x]) if x in b"*?[]\\" else bytes([x]) for x in c)
+                leaf, d1 = esc(cs[-1]), esc(cs[0])
+                par = b"/".join(esc(c) for c in cs[:-1])
+                a["include"] = [hx(rng.choice([b"**/" + leaf, b"*/" * (len(cs) - 1) + leaf, par + b"/*", b"**/" + leaf[:1] + b"*"]))]
+                a["exclude"] = [hx(rng.choice([b"**/" + leaf, d1 + b"/**", d1, b"*/" + leaf, par])),
+                                hx(b"!" + rng.choice([d1, par, esc(cs[-2]) if len(cs) >= 2 else d1, b"/".join(esc(c) for c in cs)]))]
+                if rng.random() < 0.3:
+                    a["exclude"].reverse()
                 dst = [] if rng.random() < 0.7 else [e for e in gen.mutate_disk_tree(rng, tree, 2) if e["t"] != "hardlink"]
                 ops.append(self.mk(tree, dst, a))
                 continue
@@ -363,12 +462,16 @@ class CopyEscape(CopySuite):
             "times, bytes, xattrs) of everything outside the destination root unchanged, no sentinel bytes copied; non-trivial = >= 1 planted link, distinct")
 
     def gen(self, rng, tier):
-        n = {"quick": 400, "thorough": 15000, "search": 200}[tier]
+        n = {"quick": 1200, "thorough": 15000, "search": 200}[tier]
         ops = []
         for _ in range(n):
             tree = gen.disk_tree(rng, rng.choice([5, 12]), 3, types=("dir", "file", "symlink"), xattrs=False, file_sizes=(0, 3))
             dst = gen.mutate_disk_tree(rng, [dict(e) for e in tree], 1)
             dst = [e for e in dst if e["t"] != "hardlink"]
+            if rng.random() < 0.15:
+                # colliding wildcard matches with hard-link groups across them and symlinks to the sentinels among the colliding names
+                ops.append(self.mk(*collide_family(rng, escape=True)))
+                continue
 
             def plant(t):
                 # replace some entries by escaping symlinks / add escaping symlinks
